@@ -206,6 +206,7 @@ func runC17(c *Ctx) {
 	ruleScratchAlias(c, p, "C17.scratch")
 	ruleLimitSiblings(c, p, "C17.limits")
 	ruleReadFull(c, p, "C17.readfull")
+	ruleVersionPassThrough(c, p, "C17.version-through")
 	ruleEnsureExact(c, p, "C17.ensure")
 
 	// ---- C17.fieldorder
